@@ -4,6 +4,7 @@ package main
 
 import (
 	"fmt"
+	"sync"
 	"time"
 
 	"github.com/unkn0wn-root/kioshun"
@@ -687,6 +688,187 @@ func streamQc(o opts) {
 		}
 		if t < 3 {
 			m.sample(fmt.Sprintf("%s: %d threads, %d steps", ctx, len(ths), steps))
+		}
+	}
+	w.Close()
+	m.Traces, m.Ops = w.traces, w.ops
+	m.write(o.out)
+}
+
+// ---------------------------------------------------------------------------------------------
+// "nl": T-lockstep for the delivery of removal notifications (C06). The removal notifier goroutine of a real cache
+// is adopted by the scheduler and stepped from yield point to yield point (select, per-shard flag load, lock,
+// each listener call); the harness stages removals with synchronous Deletes and, once per trace, runs Close in a
+// scheduled thread up to its broadcast. After every step the notifier's position and the shared state (wake
+// token, closeCh, per-shard pending flag and buffer length, number of deliveries and the last delivered value)
+// are compared with NotifierLts.
+
+const sidNl = 61
+
+func streamNl(o opts) {
+	r := newRand(o.seed, "nl")
+	m := newMeta("nl", o.seed)
+	m.Rule = "2-4 shard real cache with an OnRemove listener; random schedules of: a synchronous Delete of a resident key (stages one removal), one step of the adopted notifier goroutine (only when enabled: a wake token or closeCh at its select), and once per trace Close run to its broadcast; after every step the notifier's yield point and (wake token, closeCh, pending flags, buffer lengths, deliveries, last delivered value) are compared with NotifierLts; at the end every staged removal must have been delivered exactly once unless it was staged after the final drain visited its shard; non-trivial = trace with coalesced signals and a final drain that delivers; distinct by (shards, close position)"
+	w := newTraceWriter(o.out, "nl")
+	for t := 0; t < o.n; t++ {
+		nsh := pick(r, []int{2, 2, 4})
+		ctx := fmt.Sprintf("nl trace %d shards %d", t, nsh)
+		watch(ctx)
+		var mu sync.Mutex
+		var deliv []int
+		kioshun.VerifSchedReset(true, 3*time.Second)
+		kioshun.VerifSchedAdoptNotifier(true)
+		c, err := kioshun.New[int, int](kioshun.Config{ShardCount: nsh, EvictionPolicy: kioshun.LRU, MaxSize: 4096},
+			kioshun.WithOnRemove(func(k, v int, reason kioshun.RemovalReason) { mu.Lock(); deliv = append(deliv, v); mu.Unlock() }))
+		must(err)
+		for i := 0; i < 5000 && !kioshun.VerifSchedKnown(2000); i++ {
+			time.Sleep(100 * time.Microsecond)
+		}
+		kioshun.VerifSchedAdoptNotifier(false)
+		if !kioshun.VerifSchedKnown(2000) || kioshun.VerifSchedStep(2000) != 0 || kioshun.VerifSchedStep(2000) != 501 {
+			m.count("nl_setup_failed")
+			kioshun.VerifSchedRelease()
+			c.Close()
+			unwatch()
+			continue
+		}
+		nshReal := c.VerifShards()
+		w.T(sidNl, ints(int64(nshReal)))
+		// resident keys, by shard
+		keys := []int{}
+		for k := 1; k <= 40; k++ {
+			c.Set(k, 1000+k, kioshun.NoExpiration)
+			keys = append(keys, k)
+		}
+		snapshot := func(obs *toks) {
+			wake, pend, staged := c.VerifNotifierState()
+			_, _, _, _, closed := c.VerifLockState(0)
+			obs.B(wake).B(closed)
+			for _, p := range pend {
+				obs.B(p)
+			}
+			for _, n := range staged {
+				obs.I(int64(n))
+			}
+			mu.Lock()
+			last := 0
+			if len(deliv) > 0 {
+				last = deliv[len(deliv)-1]
+			}
+			obs.I(int64(len(deliv)), int64(last))
+			mu.Unlock()
+		}
+		at := 501
+		exited, closeStarted, closeDone := false, false, false
+		closeAt := 5 + r.Intn(40)
+		stagedN, coalesced, finalDelivered := 0, false, false
+		var stagedVals []int
+		lastKey, nextVal := 0, 5000
+		for step := 0; step < 200; step++ {
+			wake, _, _ := c.VerifNotifierState()
+			_, _, _, _, closed := c.VerifLockState(0)
+			var choices []int // 1 stage, 2 notifier, 3 close
+			if len(keys) > 0 && !closed {
+				choices = append(choices, 1, 1)
+			}
+			if !exited && (at != 501 || wake || closed) {
+				choices = append(choices, 2, 2, 2)
+			}
+			if !closeStarted && step >= closeAt {
+				choices = append(choices, 3)
+			}
+			if len(choices) == 0 {
+				break
+			}
+			switch pick(r, choices) {
+			case 1:
+				var k, val int
+				if lastKey != 0 && r.Intn(3) == 0 {
+					// the key deleted last is written again and deleted again: two adjacent departures of ONE key
+					k = lastKey
+					nextVal++
+					val = nextVal
+					c.Set(k, val, kioshun.NoExpiration)
+				} else {
+					i := r.Intn(len(keys))
+					k = keys[i]
+					keys = append(keys[:i], keys[i+1:]...)
+					val = 1000 + k
+				}
+				lastKey = k
+				wasWake, _, _ := c.VerifNotifierState()
+				c.Delete(k)
+				if wasWake {
+					coalesced = true
+				}
+				stagedN++
+				stagedVals = append(stagedVals, val)
+				obs := &toks{}
+				snapshot(obs)
+				w.O(ints(1, int64(c.VerifShardIndex(k)), int64(val)), obs)
+			case 2:
+				before := len(deliv)
+				both := at == 501 && wake && closed
+				p := kioshun.VerifSchedStep(2000)
+				choice := int64(0)
+				if both {
+					if stillWake, _, _ := c.VerifNotifierState(); stillWake {
+						choice = 1 // the token is still there: Go took the closeCh case
+					}
+				}
+				obs := &toks{}
+				switch {
+				case p == kioshun.VerifStepDone:
+					exited = true
+					obs.I(-1, 0)
+				case p == kioshun.VerifStepBlocked || p == kioshun.VerifStepUnknown:
+					m.violate("C06", fmt.Sprintf("%s: the notifier, parked at %d with wake=%v closed=%v, did not reach its next yield point within 3 s", ctx, at, wake, closed), ctx)
+					obs.I(-2)
+					exited = true
+				default:
+					obs.I(int64(p), 0)
+					at = p
+				}
+				if closed && len(deliv) > before {
+					finalDelivered = true
+				}
+				snapshot(obs)
+				w.O(ints(2, choice), obs)
+			case 3:
+				closeStarted = true
+				kioshun.VerifSchedSpawn(7, func() { c.Close(); closeDone = true })
+				if q := stepUntil(7, 341); q != 341 {
+					m.violate("C08", fmt.Sprintf("%s: Close did not reach its broadcast (stopped at %d)", ctx, q), ctx)
+				}
+				obs := &toks{}
+				snapshot(obs)
+				w.O(ints(3), obs)
+			}
+		}
+		// uncompared shutdown
+		kioshun.VerifSchedRelease()
+		c.Close()
+		_ = closeDone
+		time.Sleep(300 * time.Microsecond)
+		kioshun.VerifSchedReset(false, 0)
+		unwatch()
+		mu.Lock()
+		seen := map[int]int{}
+		for _, v := range deliv {
+			seen[v]++
+		}
+		for _, v := range stagedVals {
+			if seen[v] != 1 {
+				m.violate("C06", fmt.Sprintf("%s: the entry holding v%d was deleted before Close began and was reported %d times", ctx, v, seen[v]), ctx)
+				break
+			}
+		}
+		mu.Unlock()
+		if coalesced && finalDelivered {
+			m.nontrivial(fmt.Sprintf("s%d/c%d", nshReal, closeAt/10))
+		}
+		if t < 2 {
+			m.sample(fmt.Sprintf("%s: %d removals staged", ctx, stagedN))
 		}
 	}
 	w.Close()
